@@ -362,6 +362,9 @@ def draw_style(draw: Any) -> render_bp.Style:
         hex_numbers=draw(st.booleans()),
         seed=draw(st.integers(0, 1000)),
         trailing_newline=draw(st.booleans()),
+        spicy_comments=draw(st.booleans()),
+        trailing_comments=draw(st.booleans()),
+        join_statements=draw(st.booleans()),
     )
 
 
